@@ -19,6 +19,7 @@ fn main() {
   if args[0] == "probe" {
     match args.get(1).map(|s| s.as_str()) {
       Some("produce") => probe::main_produce(),
+      Some("big") => probe::main_big(args.get(2).map(|s| s.as_str()).unwrap_or("")),
       Some("consume") => probe::main_consume(args.get(2).map(|s| s.as_str()).unwrap_or(""), args.get(3).map(|s| s.as_str()).unwrap_or("")),
       other => probe::main_probe(other.unwrap_or("nothing")),
     }
